@@ -106,7 +106,7 @@ Definition touches (ks : list N) (t : tx) : bool :=
 (* the placeholder literal: timestamp, signature and hash_for_signature of the omitted
    transaction; type SPV; txs_replacements 1; no slips, no data, no path *)
 Definition placeholder (t : tx) : tx :=
-  mkTx TY_SPV 1 (t_sig t) (t_sig32 t) (t_ts t) [] [] 0 0 (t_hfs t).
+  mkTx TY_SPV 1 (t_sig t) (t_sig32 t) (t_ts t) [] [] 0 0 0 (t_hfs t).
 
 Definition prune1 (ks : list N) (t : tx) : tx :=
   if touches ks t then t else placeholder t.
@@ -115,7 +115,7 @@ Definition mergeable (x y : tx) : bool :=
   is_spv x && is_spv y && (t_repl x =? t_repl y).
 
 Definition merged (x : tx) (r : N) (h : hv) : tx :=
-  mkTx (t_ty x) r (t_sig x) (t_sig32 x) (t_ts x) (t_from x) (t_to x) (t_rest x) (t_chash x) (Some h).
+  mkTx (t_ty x) r (t_sig x) (t_sig32 x) (t_ts x) (t_from x) (t_to x) (t_rest x) (t_dlen x) (t_chash x) (Some h).
 
 (* let mut i = 0;
    while i + 1 < len { if both SPV with equal replacements { txs[i].replacements *= 2;
@@ -164,14 +164,14 @@ Definition lite (b : block) (ks : list N) : res block :=
    fields survive; hash (Block::new(): [0;32]) and hash_for_signature (Transaction::default():
    None) are not serialised *)
 Definition clear_hfs (t : tx) : tx :=
-  mkTx (t_ty t) (t_repl t) (t_sig t) (t_sig32 t) (t_ts t) (t_from t) (t_to t) (t_rest t) (t_chash t) None.
+  mkTx (t_ty t) (t_repl t) (t_sig t) (t_sig32 t) (t_ts t) (t_from t) (t_to t) (t_rest t) (t_dlen t) (t_chash t) None.
 
 Definition wire (b : block) : block :=
   mkBlock (b_hdr b) (BRaw 0) (map clear_hfs (b_txs b)).
 
 (* Transaction::generate_hash_for_signature: SPV => signature[0..32], else hash of the signed bytes *)
 Definition rehash (t : tx) : tx :=
-  mkTx (t_ty t) (t_repl t) (t_sig t) (t_sig32 t) (t_ts t) (t_from t) (t_to t) (t_rest t) (t_chash t)
+  mkTx (t_ty t) (t_repl t) (t_sig t) (t_sig32 t) (t_ts t) (t_from t) (t_to t) (t_rest t) (t_dlen t) (t_chash t)
        (Some (Leaf (if is_spv t then t_sig32 t else t_chash t))).
 
 (* Block::generate: tx.generate for every transaction; merkle root recomputed only when the
@@ -205,11 +205,16 @@ Fixpoint out_ordinals (i : N) (l : list tx) : list N :=
   end.
 
 (* what the light client holds after fetching the lite block *)
-Definition receive (l : block) : res block := generate (wire l).
+(* Transaction::deserialize_from_net (since fix eeb4ec7): a GoldenTicket-typed transaction whose
+   payload is not the 97 bytes of a GoldenTicket does not decode, and then neither does the block *)
+Definition decodable (t : tx) : bool := negb (t_ty t =? TY_GT) || (t_dlen t =? 97).
+
+Definition receive (l : block) : res block :=
+  if forallb decodable (b_txs l) then generate (wire l) else Err.
 
 (* the lite-block route: block read from disk, generate, generate_lite_block *)
 Definition serve (disk : block) (ks : list N) : res block :=
-  do b <- generate (wire disk); lite b ks.
+  do b <- receive disk; lite b ks.
 
 (* ---------------------------------------------------------------- decidable equalities (for the case files) *)
 
@@ -224,7 +229,7 @@ Definition opt_hv_eqb (a b : option hv) : bool :=
 Definition tx_eqb (a b : tx) : bool :=
   (t_ty a =? t_ty b) && (t_repl a =? t_repl b) && (t_sig a =? t_sig b) && (t_sig32 a =? t_sig32 b)
   && (t_ts a =? t_ts b) && eqb_lN (t_from a) (t_from b) && eqb_lN (t_to a) (t_to b)
-  && (t_rest a =? t_rest b) && opt_hv_eqb (t_hfs a) (t_hfs b).
+  && (t_rest a =? t_rest b) && (t_dlen a =? t_dlen b) && opt_hv_eqb (t_hfs a) (t_hfs b).
 
 Definition header_nums (h : header) : list N :=
   [h_id h; h_timestamp h; h_previous_block_hash h; h_creator h; h_signature h;
